@@ -7,7 +7,7 @@
    non-blank line; `item_ok g` says that nothing in item `g` is rejected; `file_clean ls` that
    every item of the file and of the files it includes is valid.  `status_of_count` is
    regenerated from src/main.cc on every run (Gen/StatusOfCount.v). *)
-From LedgerV Require Import Base.Prelude Gen.StatusOfCount Model.Errors Proofs.ErrorsProofs.
+From LedgerV Require Import Base.Prelude Gen.StatusOfCount Gen.CheckingStyle Model.Errors Proofs.ErrorsProofs.
 Local Open Scope Z_scope.
 
 (* ---- one located message per invalid item ------------------------------------------------- *)
@@ -125,6 +125,70 @@ Theorem session_error_count_is_sum_over_files : forall fs,
 Proof. exact session_errors_sum. Qed.
 Print Assumptions session_error_count_is_sum_over_files.
 
+(* ---- checking options -------------------------------------------------------------------------
+   `checking_style o` follows the else-if chain of session_t::read_data as regenerated from
+   src/session.cc on every run (Gen/CheckingStyle.v).  --pedantic makes every undeclared account,
+   commodity and tag (payee with --check-payees) an error whatever else is set, except
+   --permissive; --strict alone makes them warnings; otherwise they are accepted silently. *)
+Theorem pedantic_wins_over_strict : forall o,
+  o_pedantic o = true -> o_permissive o = false -> checking_style o = SError.
+Proof. exact pedantic_style. Qed.
+Print Assumptions pedantic_wins_over_strict.
+
+Theorem pedantic_unknown_names_are_errors : forall o nk k,
+  o_pedantic o = true -> o_permissive o = false ->
+  (nk = NPayee -> o_check_payees o = true) ->
+  unknown_name_reaction o nk = RError /\ resolve_ann o (AUnknown nk k) = Some k.
+Proof. exact pedantic_unknown_is_error. Qed.
+Print Assumptions pedantic_unknown_names_are_errors.
+
+(* ... and they are counted: a transaction whose posting uses an undeclared name is one error,
+   exit status 1, no report - with or without --strict / --check-payees on top *)
+Theorem pedantic_unknown_name_is_counted : forall o nk k name,
+  o_pedantic o = true -> o_permissive o = false ->
+  (nk = NPayee -> o_check_payees o = true) ->
+  run_session o [(name, [RLItem [] true []; RLSub [AUnknown nk k]; RLSub []])] =
+  mk_result [mk_msg [] name 2 k None] 1 1 false.
+Proof.
+  intros o nk k name Hp Hq Hc. unfold run_session, resolve_files.
+  cbn [map fst snd resolve first_throw].
+  rewrite (proj2 (pedantic_unknown_is_error o nk k Hp Hq Hc)). reflexivity.
+Qed.
+Print Assumptions pedantic_unknown_name_is_counted.
+
+(* whatever else is set next to --pedantic (--strict, from the command line, an init file or the
+   environment) the whole session reads the same: same messages, count, status, no report *)
+Theorem pedantic_session_independent_of_other_options : forall o o' files,
+  o_pedantic o = true -> o_permissive o = false ->
+  o_pedantic o' = true -> o_permissive o' = false ->
+  o_check_payees o = o_check_payees o' ->
+  run_session o files = run_session o' files.
+Proof. exact pedantic_session_same. Qed.
+Print Assumptions pedantic_session_independent_of_other_options.
+
+Theorem strict_alone_unknown_names_are_warnings : forall o nk k,
+  o_strict o = true -> o_pedantic o = false -> o_permissive o = false ->
+  (nk = NPayee -> o_check_payees o = true) ->
+  unknown_name_reaction o nk = RWarning /\ resolve_ann o (AUnknown nk k) = None.
+Proof. exact strict_alone_unknown_is_warning. Qed.
+Print Assumptions strict_alone_unknown_names_are_warnings.
+
+Theorem unknown_names_quiet_otherwise : forall o nk k,
+  (o_permissive o = true \/ (o_strict o = false /\ o_pedantic o = false) \/
+   (nk = NPayee /\ o_check_payees o = false)) ->
+  unknown_name_reaction o nk = RQuiet /\ resolve_ann o (AUnknown nk k) = None.
+Proof. exact quiet_unknown. Qed.
+Print Assumptions unknown_names_quiet_otherwise.
+
+(* a balance assertion that is off is an error unless --permissive *)
+Theorem balance_assertion_error_unless_permissive : forall o k,
+  (o_permissive o = false -> resolve_ann o (ABalAssert k) = Some k) /\
+  (o_permissive o = true -> resolve_ann o (ABalAssert k) = None).
+Proof.
+  intros o k. split; [apply balance_assertion_checked|apply permissive_accepts_balance_assertion].
+Qed.
+Print Assumptions balance_assertion_error_unless_permissive.
+
 (* ---- the hypotheses are satisfiable; the model computes ------------------------------------ *)
 (* a valid transaction, an unbalanced one (lines 5-7), one whose 2nd posting is malformed (class
    3, line 10; its 3rd line is swallowed), an include at line 13 whose file has a bad date at
@@ -154,6 +218,19 @@ Example sample_clean :
 Proof. vm_compute. reflexivity. Qed.
 
 Example sample_unclean : file_clean sample_file = false.
+Proof. vm_compute. reflexivity. Qed.
+
+(* --strict from an init file, --pedantic on the command line: still an error *)
+Example sample_strict_and_pedantic :
+  run_session (mk_opts true true false false)
+              [(1, [RLItem [] true []; RLSub [AUnknown NAccount 5]; RLSub []])] =
+  mk_result [mk_msg [] 1 2 5 None] 1 1 false.
+Proof. vm_compute. reflexivity. Qed.
+
+Example sample_strict_alone :
+  run_session (mk_opts true false false false)
+              [(1, [RLItem [] true []; RLSub [AUnknown NAccount 5]; RLSub []])] =
+  mk_result [] 0 0 true.
 Proof. vm_compute. reflexivity. Qed.
 
 Example status_256 : status_of_count 256 mod 256 = 255.
